@@ -105,7 +105,7 @@ func init() {
 
 // armedTimers returns the timers that may fire now.
 func (st *State) armedTimers() []*timerObj {
-	if st.eng.cfg.TimeMode != "free" {
+	if st.eng.cfg.TimeMode != "free" || st.timersFrozen {
 		return nil
 	}
 	var out []*timerObj
